@@ -211,7 +211,7 @@ def compile_one(args):
     # appear when the generic code is instantiated for the element type (post-monomorphisation) are seen too
     full = "/const_" in path or "/construct_" in path or "replay_const" in path or "replay_construct" in path
     cmd = ["rustc"] + ([f"+{tc}"] if tc else []) + ["--edition", "2021", "--crate-type", "lib", "--crate-name", "witness", "--emit=obj" if full else "--emit=metadata", "--error-format=json", "-o", path[:-3] + (".o" if full else ".rmeta"),
-           "--extern", f"circular_buffer={rlib}", "-L", f"dependency={deps}", "--cap-lints", "allow", path]
+           "--extern", f"circular_buffer={rlib}", "-L", f"dependency={deps}", "-A", "warnings", path]
     p = subprocess.run(cmd, stdout=subprocess.PIPE, stderr=subprocess.PIPE, text=True)
     errs = []
     for line in p.stderr.splitlines():
